@@ -351,6 +351,17 @@ func nitroProject(c *vh.Ctx, k int, legumes bool) *proj.Project {
 		p.GW = p.DrainDep + r.Range(0, 3)
 	}
 	steerNitroProject(p, false)
+	if class == 1 && k%2 == 1 && p.N() < 20 {
+		// drain pipes below the simulated profile (e.g. 12 dm under a 10-layer profile): no layer is the drain layer, nothing
+		// may be drained or booked as drain loss (derived from k: the random stream of the other classes is unchanged)
+		p.DrainDep = p.N() + 1 + k%2
+		if p.DrainDep > 21 {
+			p.DrainDep = 21
+		}
+		if p.DrainPct == 0 {
+			p.DrainPct = 60
+		}
+	}
 	nitroVariant(c, r, p, k, legumes) // configuration values, irrigation N, automatic management (run_nitro_auto.go); draws after everything else
 	return p
 }
